@@ -35,6 +35,9 @@ var TamperKinds = []string{
 	"ttl-inflate",   // raise TTLs
 	"nx-to-nodata",  // turn NXDOMAIN into NOERROR/NODATA keeping the proof
 	"nodata-for-existing", // answer NODATA (with a genuine but non-matching proof) for a present type
+	"wildcard-replay",             // an existing name answered with the zone's genuine wildcard RRset + RRSIG, no proof
+	"wildcard-replay-other-nsec",  // same, with genuine NSEC/NSEC3 of another interval as "proof"
+	"wildcard-replay-forged-nsec", // same, with a forged unsigned NSEC owned outside the zone that spans the name
 }
 
 // DenialKinds are the C02 tamperings: every record they add is a genuine, correctly
@@ -50,6 +53,7 @@ var DenialKinds = []string{
 	"nods-for-secure",       // referral: DS replaced by a genuine denial record of another interval
 	"foreign-denial",        // denial records of a sibling/child zone
 	"forge-unsigned",        // answer data changed and everything DNSSEC stripped (pairs with nods-for-secure)
+	"wildcard-replay", "wildcard-replay-other-nsec", "wildcard-replay-forged-nsec",
 }
 
 // Invalidating reports whether a kind makes the authenticated content of the targeted
@@ -447,6 +451,50 @@ func Apply(kind string, a *Answer, attacker, other *Zone) (*dns.Msg, bool) {
 		} else {
 			m.Ns = append(m.Ns, withSig(z, z.nsecAt(0))...)
 			m.Ns = append(m.Ns, withSig(z, z.nsecAt(len(z.nsecChain())/2))...)
+		}
+		changed = true
+	case "wildcard-replay", "wildcard-replay-other-nsec", "wildcard-replay-forged-nsec":
+		if a.Kind != "answer" || z == nil || !z.Signed || len(m.Question) != 1 {
+			return nil, false
+		}
+		qn := dns.CanonicalName(m.Question[0].Name)
+		qt := m.Question[0].Qtype
+		var wild string
+		var wrrs []dns.RR
+		for p := parentName(qn); dns.IsSubDomain(z.Name, p); p = parentName(p) {
+			w := "*." + p
+			if p == "." {
+				w = "*."
+			}
+			if rrs, ok := z.Nodes[w][qt]; ok && w != qn {
+				wild, wrrs = w, rrs
+				break
+			}
+			if p == "." || p == z.Name {
+				break
+			}
+		}
+		if wild == "" {
+			return nil, false
+		}
+		ans, sigs := z.expandWildcard(wild, wrrs, m.Question[0].Name)
+		m.Answer = append(ans, sigs...)
+		m.Ns = nil
+		switch kind {
+		case "wildcard-replay-other-nsec":
+			if z.NSEC3 {
+				m.Ns = append(m.Ns, withSig(z, z.nsec3RR(0))...)
+			} else {
+				m.Ns = append(m.Ns, withSig(z, z.nsecAt(0))...)
+			}
+		case "wildcard-replay-forged-nsec":
+			par := parentName(z.Name)
+			next := "zzzz." + par
+			if par == "." {
+				next = "zzzz."
+			}
+			m.Ns = append(m.Ns, &dns.NSEC{Hdr: dns.RR_Header{Name: par, Rrtype: dns.TypeNSEC, Class: dns.ClassINET, Ttl: 300},
+				NextDomain: next, TypeBitMap: []uint16{dns.TypeNS, dns.TypeSOA, dns.TypeRRSIG, dns.TypeNSEC}})
 		}
 		changed = true
 	case "forge-unsigned":
